@@ -53,7 +53,7 @@ type Client struct {
 	sess *wamp.Session
 
 	responseTimeout time.Duration
-	awaitingReply   map[wamp.ID]chan wamp.Message
+	awaitingReply   map[wamp.ID]*replyWaiter
 
 	eventHandlers map[wamp.ID]EventHandler
 	topicSubID    map[string]wamp.ID
@@ -267,7 +267,7 @@ func NewClient(p wamp.Peer, cfg Config) (*Client, error) {
 		sess: sess,
 
 		responseTimeout: cfg.ResponseTimeout,
-		awaitingReply:   map[wamp.ID]chan wamp.Message{},
+		awaitingReply:   map[wamp.ID]*replyWaiter{},
 
 		eventHandlers: map[wamp.ID]EventHandler{},
 		topicSubID:    map[string]wamp.ID{},
@@ -1306,11 +1306,32 @@ func unexpectedMsgError(msg wamp.Message, expected wamp.MessageType) error {
 	return errors.New(s)
 }
 
+// replyWaiter is where run() hands the replies to a request to the goroutine
+// waiting for them.
+type replyWaiter struct {
+	ch chan wamp.Message
+	// gone is closed when the waiter stops waiting, so that run() is never
+	// left blocked handing over a reply that nobody will read.
+	gone chan struct{}
+}
+
 func (c *Client) expectReply(id wamp.ID) {
-	wait := make(chan wamp.Message)
+	wait := &replyWaiter{
+		ch:   make(chan wamp.Message),
+		gone: make(chan struct{}),
+	}
 	c.sess.Lock()
 	c.awaitingReply[id] = wait
 	c.sess.Unlock()
+}
+
+// doneWaiting removes the reply waiter and releases run() if it is blocked
+// handing a reply to it.
+func (c *Client) doneWaiting(id wamp.ID, w *replyWaiter) {
+	c.sess.Lock()
+	delete(c.awaitingReply, id)
+	c.sess.Unlock()
+	close(w.gone)
 }
 
 // waitForReply waits for an expected reply from the router.
@@ -1319,14 +1340,15 @@ func (c *Client) expectReply(id wamp.ID) {
 // run() goroutine may be blocked waiting for a reply to be read from the
 // awaiting reply channel.
 func (c *Client) waitForReply(id wamp.ID) (wamp.Message, error) {
-	var wait chan wamp.Message
+	var w *replyWaiter
 	var ok bool
 	c.sess.Lock()
-	wait, ok = c.awaitingReply[id]
+	w, ok = c.awaitingReply[id]
 	c.sess.Unlock()
 	if !ok {
 		return nil, fmt.Errorf("not expecting reply for ID: %v", id)
 	}
+	wait := w.ch
 
 	var msg wamp.Message
 	var err error
@@ -1343,9 +1365,7 @@ func (c *Client) waitForReply(id wamp.ID) (wamp.Message, error) {
 	case <-c.Done():
 		err = ErrNotConn
 	}
-	c.sess.Lock()
-	delete(c.awaitingReply, id)
-	c.sess.Unlock()
+	c.doneWaiting(id, w)
 
 	return msg, err
 }
@@ -1357,14 +1377,15 @@ func (c *Client) waitForReply(id wamp.ID) (wamp.Message, error) {
 // run() goroutine may be blocked waiting for a reply to be read from the
 // awaiting reply channel.
 func (c *Client) waitForReplyWithCancel(ctx context.Context, id wamp.ID, procedure string, progChan chan<- *wamp.Result) (wamp.Message, error) { //nolint:lll
-	var wait chan wamp.Message
+	var w *replyWaiter
 	var ok bool
 	c.sess.Lock()
-	wait, ok = c.awaitingReply[id]
+	w, ok = c.awaitingReply[id]
 	c.sess.Unlock()
 	if !ok {
 		return nil, fmt.Errorf("not expecting reply for ID: %v", id)
 	}
+	wait := w.ch
 
 	var msg wamp.Message
 	var err error
@@ -1419,9 +1440,7 @@ CollectResults:
 		err = ErrNotConn
 	}
 	// All done with this call, so not waiting for more replies.
-	c.sess.Lock()
-	delete(c.awaitingReply, id)
-	c.sess.Unlock()
+	c.doneWaiting(id, w)
 
 	return msg, err
 }
@@ -1932,7 +1951,7 @@ func (c *Client) runHandleInterrupt(msg *wamp.Interrupt) {
 }
 
 func (c *Client) runSignalReply(msg wamp.Message, requestID wamp.ID) {
-	var w chan wamp.Message
+	var w *replyWaiter
 	var ok bool
 	c.sess.Lock()
 	w, ok = c.awaitingReply[requestID]
@@ -1943,7 +1962,10 @@ func (c *Client) runSignalReply(msg wamp.Message, requestID wamp.ID) {
 		return
 	}
 	select {
-	case w <- msg:
+	case w.ch <- msg:
+	case <-w.gone:
+		c.log.Println("Received", msg.MessageType(), requestID,
+			"that client is no longer waiting for")
 	case <-c.Done():
 	}
 }
